@@ -127,7 +127,7 @@ func TestVerifC13(t *testing.T) {
 	s := verifh.S()
 	base := filepath.Join(verifh.Scratch(), "c13")
 	modes := []string{"none", "keep", "drop", "drop", "drop", "fail", "panic", "content", "content"}
-	for c := 0; c < verifh.Pick(60, 1500); c++ {
+	for c := 0; c < verifh.Pick(60, 300); c++ {
 		r := verifh.Rand("c13", c)
 		group := fmt.Sprintf("verif-c13-%d", c)
 		dir := filepath.Join(base, fmt.Sprintf("t%05d", c13dirSeq.Add(1)))
